@@ -488,6 +488,11 @@ class Judge:
                 self.ast = pickle.loads(pickle.dumps(self.ast))
             if edit and edit.get('topic'):
                 self.ast = edit_through_api(self.ast, edit)
+            if edit and edit.get('min_time'):
+                # the lower end of the time window can only be given through the API
+                pat = self.ast.pattern
+                if pat.max_time >= edit['min_time']:
+                    self.ast = self.ast.but(pattern=pat.but(min_time=edit['min_time']))
             foreign = build.parser('property').parse(edit['recall']['foreign']) if edit and edit.get('recall') else None
         except Exception as e:
             raise Unparseable(type(e).__name__)
@@ -564,6 +569,11 @@ def run_one(seed, cfg, stats):
         edit = dict(edit or {})
         edit['recall'] = {'op': sim.pick('recall_op', RECALL_OPS), 'foreign': 'globally: no %s' % sim.pick('recall_topic', topics)}
         count('recall_' + edit['recall']['op'])
+    aux = core.Sim(core.derive(seed, 'c12-aux'))  # a stream of its own: nothing drawn here moves anything else
+    if aux.coin('min_time', 0.06):
+        edit = dict(edit or {})
+        edit['min_time'] = aux.pick('min_time_value', (0.001, 0.05, 0.5, 1.0))
+        count('api_min_time')
     if sim.coin('warnings_error', 0.15):
         edit = dict(edit or {})
         edit['warnings'] = 'error'  # python -W error / PYTHONWARNINGS=error around the library call
@@ -806,6 +816,7 @@ def main(argv):
         'generated_texts_rejected_by_parser': stats.get('generated_text_rejected_by_parser', 0),
         'shapes_with_both_verdicts_observed': both,
         'fault_kinds_fired': {k[6:]: v for k, v in sorted(stats.items()) if k.startswith('fault_')},
+        'properties_given_a_min_time_through_the_api': stats.get('api_min_time', 0),
         'properties_with_27_to_34_alternatives_in_one_event': stats.get('wide_properties', 0),
         'property_object_obtained_by': {k[9:]: v for k, v in sorted(stats.items()) if k.startswith('obtained_')},
         'caller_edits_of_an_earlier_result_before_a_second_call': {k[7:]: v for k, v in sorted(stats.items()) if k.startswith('recall_')},
@@ -821,7 +832,8 @@ def main(argv):
     assumptions = [
         'finite-trace semantics of scopes and patterns as written in hplsim/monitor.py from docs/lang.md; the relation is metamorphic (one monitor judges both sides)',
         'aliases are bound on simple events only; properties that canonical_form refuses are counted, not judged',
-        'time bounds compared in integer milliseconds',
+        'time bounds compared exactly as stored (fractions of a millisecond included)',
+        'min_time (API only, undocumented) is read as the lower end of the window [min_time, max_time]; the reading matters only in so far as a copy that loses the field must not pass for the original',
     ]
     core.write_evidence(PROP, args.tier, master, 'exploration', coverage, wall, len(new), assumptions)
     print('C12: %d runs, %d prefixes checked, %.0f simulated seconds, %d messages delivered, %.1fs' % (
